@@ -66,6 +66,9 @@
 (*              (`cannot deep copy int` panic)                    (F22)    *)
 (*   "unknown"  unknown keys are dropped by the struct decoders before the *)
 (*              schema (additionalProperties: false) can see them          *)
+(*   "more"     not a defect of the pinned commit: the seeded change C13-m6 *)
+(*              (JSON decode loop `for dec.More()`), kept so that TLC shows *)
+(*              which property it breaks (MC_asis_more.cfg)                 *)
 (* AsIs = {} is the code after the proposed fixes.                         *)
 (***************************************************************************)
 EXTENDS Integers, Sequences, FiniteSets, TLC, Json
@@ -138,10 +141,15 @@ FaultBases(level) == IF level = "rich" THEN CreateOps \cup DeleteOps \cup PatchO
                      ELSE IF level = "num" THEN {}
                      ELSE {"CreateOrUpdate", "DeleteNonCascading", "JSONPatch"}
 
+\* a stray closing bracket between the documents (op "Stray": not a document)
+StrayVars(level) == IF level \in {"rich", "medium"} THEN {"]", "}"} ELSE IF level \in OrderLevels THEN {"}"} ELSE {}
+StrayDocs(level) == LET k0 == CHOOSE k \in Keys : TRUE IN {Doc("Stray", k0, v, "inline", "", FALSE, "strayClose") : v \in StrayVars(level)}
+
 FaultDocs(level) ==
   LET k0  == CHOOSE k \in Keys : TRUE
       all == UNION {{Doc(op, k0, DefaultVar(op), "inline", "", FALSE, f) : f \in FaultsFor(op)} : op \in FaultBases(level)}
-  IN IF level \in {"rich", "medium"} THEN all
+  IN StrayDocs(level) \cup
+     IF level \in {"rich", "medium"} THEN all
      ELSE {d \in all : \/ d.op = "CreateOrUpdate" /\ d.fault = "unknownField"
                        \/ d.op = "DeleteNonCascading" /\ d.fault = "noName" /\ level = "order"
                        \/ d.op = "JSONPatch" /\ d.fault \in {"badPayload", "unknownOp"}}
@@ -211,7 +219,7 @@ NumType(syn, d) ==
 
 \* helpers.go: decoding one document into OperationSpec. decodeErr: the decoder itself refuses the document.
 Decode(syn, d) ==
-  [operation |-> IF d.fault = "noOperation" THEN "" ELSE IF d.fault = "unknownOp" THEN "Apply" ELSE d.op,
+  [operation |-> IF d.fault \in {"noOperation", "strayClose"} THEN "" ELSE IF d.fault = "unknownOp" THEN "Apply" ELSE d.op,
    hasName   |-> d.op \notin CreateOps /\ d.fault # "noName",
    hasKind   |-> d.op \notin CreateOps /\ d.fault # "noKind",
    payload   |-> IF d.op \in DeleteOps THEN "absent"
@@ -222,7 +230,11 @@ Decode(syn, d) ==
    key |-> d.key, var |-> d.var, sub |-> d.sub, ign |-> d.ign,
    num |-> NumType(syn, d),
    \* an unknown key: dropped silently by both struct decoders (as is); refused by strict decoders (fixed)
-   decodeErr |-> d.fault = "unknownField" /\ "unknown" \notin AsIs]
+   decodeErr |-> \/ d.fault = "unknownField" /\ "unknown" \notin AsIs
+                 \* a closing bracket without an opening one is a syntax error for both stream decoders;
+                 \* as "more": a JSON decode loop `for dec.More()` takes it for the end of the stream (seeded change C13-m6)
+                 \/ d.fault = "strayClose" /\ ~(syn = "json" /\ "more" \in AsIs),
+   endsStream |-> d.fault = "strayClose" /\ syn = "json" /\ "more" \in AsIs]
 
 \* validation.go, schema v0, on the decoded struct (the string fields are omitempty: "" = missing)
 SchemaOk(sp) ==
@@ -259,10 +271,16 @@ ParseFrom(syn, s, i, ops) ==
        IF ~SchemaOk(sp) THEN [ops |-> ops, err |-> TRUE]           \* break: later documents are not looked at
        ELSE ParseFrom(syn, s, i + 1, Append(ops, NewOp(sp)))
 
+\* the part of the stream the decoder reads (all of it, unless something makes it stop silently)
+Read(syn, s) ==
+  LET ends == {i \in 1..Len(s) : Decode(syn, s[i]).endsStream}
+  IN IF ends = {} THEN s ELSE SubSeq(s, 1, (CHOOSE i \in ends : \A j \in ends : i <= j) - 1)
+
 Parse(syn, s) ==
-  IF \E i \in 1..Len(s) : Decode(syn, s[i]).decodeErr
+  LET rd == Read(syn, s) IN
+  IF \E i \in 1..Len(rd) : Decode(syn, rd[i]).decodeErr
   THEN [ops |-> <<>>, err |-> TRUE]                                \* the stream decoder fails as a whole
-  ELSE ParseFrom(syn, s, 1, <<>>)
+  ELSE ParseFrom(syn, rd, 1, <<>>)
 
 \* what a patch / filter does to the object the API server holds
 Patched(op, o) ==
@@ -375,9 +393,9 @@ Case ==
 \* deterministic pseudo-random selection of the cases that are printed (all of them are model-checked)
 OpN(op) == CASE op = "Create" -> 1 [] op = "CreateIfNotExists" -> 2 [] op = "CreateOrUpdate" -> 3 [] op = "Delete" -> 4
              [] op = "DeleteInBackground" -> 5 [] op = "DeleteNonCascading" -> 6 [] op = "MergePatch" -> 7
-             [] op = "JSONPatch" -> 8 [] op = "JQPatch" -> 9
+             [] op = "JSONPatch" -> 8 [] op = "JQPatch" -> 9 [] op = "Stray" -> 10
 FaultN(f) == CASE f = "none" -> 0 [] f = "noOperation" -> 1 [] f = "unknownOp" -> 2 [] f = "unknownField" -> 3
-               [] f = "noPayload" -> 4 [] f = "emptyPayload" -> 5 [] f = "badPayload" -> 6 [] f = "noName" -> 7 [] f = "noKind" -> 8
+               [] f = "noPayload" -> 4 [] f = "emptyPayload" -> 5 [] f = "badPayload" -> 6 [] f = "noName" -> 7 [] f = "noKind" -> 8 [] f = "strayClose" -> 9
 DocN(d) == OpN(d.op) * 7 + (IF d.key = CHOOSE k \in Keys : TRUE THEN 0 ELSE 3) + FaultN(d.fault) * 19
            + (IF d.form = "inline" THEN 0 ELSE IF d.form = "jsonstr" THEN 5 ELSE 10) + (IF d.sub = "" THEN 0 ELSE 11)
            + (IF d.ign THEN 13 ELSE 0) + (IF d.var \in {"1", "m", "q", "j", "-"} THEN 0 ELSE IF d.var \in {"2", "d", "c"} THEN 17 ELSE 29)
